@@ -46,6 +46,13 @@ type ttEvent struct {
 	Idx    int    `json:"idx"`
 }
 
+func maxInt(a, b int) int {
+	if a > b {
+		return a
+	}
+	return b
+}
+
 func sbigI(v int64) sbig {
 	b := big.NewInt(v)
 	s := b.Sign()
@@ -139,6 +146,12 @@ func ttestRecord(out io.Writer, args []string) error {
 		}
 		equal := rng.Intn(2) == 0
 		rounds := 1 + rng.Intn(3)
+		// sizes that differ by a multiple of 32 (or 16, 64): table-driven or blocked implementations alias exactly there
+		stride := 0
+		if rng.Intn(5) == 0 && *maxN >= 40 {
+			equal, rounds = false, 1
+			stride = []int{32, 32, 16, 64}[rng.Intn(4)]
+		}
 		for r := 0; r < rounds; r++ {
 			// grow
 			var k1, k2 int
@@ -150,6 +163,16 @@ func ttestRecord(out io.Writer, args []string) error {
 			}
 			if equal {
 				k2 = len(iv[0]) + k1 - len(iv[1])
+			}
+			if stride > 0 {
+				k2 = 2 + rng.Intn(7)
+				k1 = k2 + stride*(1+rng.Intn(maxInt(1, (*maxN-k2)/stride)))
+				if k1 > *maxN {
+					k1 = k2 + stride
+				}
+				if rng.Intn(2) == 0 {
+					k1, k2 = k2, k1
+				}
 			}
 			for a, k := range []int{k1, k2} {
 				for i := 0; i < k && len(iv[a]) < *maxN; i++ {
@@ -224,8 +247,9 @@ func ttestRecord(out io.Writer, args []string) error {
 					}
 				}
 			}
-			for a := 0; a < 2; a++ {
-				for _, conf := range []float64{-0.5, 0, 0.5, 0.9, 0.95, 0.99, rng.Float64(), 1 - math.Pow(10, -1-5*rng.Float64()), 1, 1.5} {
+			// the same level for both samples in turn (and back): MeanCI is a function of (xs, c) only
+			for _, conf := range []float64{-0.5, 0, 0.5, 0.9, 0.95, 0.99, rng.Float64(), 1 - math.Pow(10, -1-5*rng.Float64()), 1, 1.5} {
+				for _, a := range []int{0, 1, 0} {
 					xs, ok := guarded(flt(iv[a]))
 					x0 := append([]float64{}, xs...)
 					var mean, lo, hi float64
